@@ -338,8 +338,10 @@ type FeatureMisread struct {
 }
 
 var (
-	reFromMoves = regexp.MustCompile(`(?i)\b(from|join)\s+(\(\s*)?("?[\w-]+"?\.)?"?moves"?(\s|\)|$)`)
-	rePCEVCol   = regexp.MustCompile(`(?i)\bpost_commit_effective_volumes\b`)
+	reFromMoves    = regexp.MustCompile(`(?i)\b(from|join)\s+(\(\s*)?("?[\w-]+"?\.)?"?moves"?(\s|\)|$)`)
+	reFromAcctMeta = regexp.MustCompile(`(?i)\b(from|join)\s+(\(\s*)?("?[\w-]+"?\.)?"?accounts_metadata"?(\s|\)|$)`)
+	reFromTxMeta   = regexp.MustCompile(`(?i)\b(from|join)\s+(\(\s*)?("?[\w-]+"?\.)?"?transactions_metadata"?(\s|\)|$)`)
+	rePCEVCol      = regexp.MustCompile(`(?i)\bpost_commit_effective_volumes\b`)
 )
 
 // UnscopedRead: a read statement with more references to tables of the ledger's bucket than `ledger = '<name>'`
@@ -409,6 +411,20 @@ func (w *World) auditRead(ctx context.Context, query string) {
 		w.probe("read_statement_on_effective_volumes")
 		if !l.HasFeature(features.FeatureMovesHistoryPostCommitEffectiveVolumes, "SYNC") {
 			add(features.FeatureMovesHistoryPostCommitEffectiveVolumes)
+		}
+	}
+	// the metadata history tables are filled (by trigger) only when the corresponding feature is SYNC; a read on
+	// a ledger without it must use the current metadata, not a history that was never written
+	if reFromAcctMeta.MatchString(q) {
+		w.probe("read_statement_on_accounts_metadata_history")
+		if !l.HasFeature(features.FeatureAccountMetadataHistory, "SYNC") {
+			add(features.FeatureAccountMetadataHistory)
+		}
+	}
+	if reFromTxMeta.MatchString(q) {
+		w.probe("read_statement_on_transactions_metadata_history")
+		if !l.HasFeature(features.FeatureTransactionMetadataHistory, "SYNC") {
+			add(features.FeatureTransactionMetadataHistory)
 		}
 	}
 }
